@@ -6,4 +6,6 @@ export CARGO_NET_OFFLINE=true
 mkdir -p evidence replays
 (cd harness && cp -f /repo/Cargo.lock Cargo.lock.repo 2>/dev/null || true; cargo build --offline 2>&1 | tail -3)
 (cd lean && lake build Tsg tsgdriver 2>&1 | tail -3)
+bash tools/stage_cli_env.sh
+(cd /repo && CARGO_TARGET_DIR=/verif/harness/target-cli cargo build --offline --features cli 2>&1 | tail -1)
 echo "setup done"
